@@ -585,6 +585,28 @@ Definition wf_conjuncts (m : module) : list bool :=
     wf_label_total m; wf_entry m ].
 Definition wf_moduleb (m : module) : bool := forallb (fun b => b) (wf_conjuncts m).
 
+(* the same conjuncts, computed with one decode and one label collection per function (what nvref evaluates; equality with
+   wf_conjuncts is proved in NV.Isa.AsmProofs) *)
+Definition code_checks (c : list byte) : list bool :=
+  match decode_all (length c) c 0 with
+  | None => [false; true; true; true; true]
+  | Some l =>
+      let labels := fn_labels c in
+      let bnd := bnd_of c l in
+      [ true;
+        forallb (fun pi => targets_ok (kinds_of (op (snd pi))) (args (snd pi)) (fst pi) labels) l;
+        forallb (fun t => mem_N t bnd) labels;
+        fold_right (fun pi a => count_i32 (kinds_of (op (snd pi))) + a) 0 l <=? max_patches;
+        forallb (fun pi => f64s_ok (kinds_of (op (snd pi))) (args (snd pi))) l ]
+  end.
+Definition wf_conjuncts_fast (m : module) : list bool :=
+  let codes := map (code_of m) (m_funcs m) in
+  let reps := map code_checks codes in
+  let col (k : nat) := forallb (fun r => nth k r true) reps in
+  [ wf_str_nul m; wf_str_nl m; wf_str_comment m; wf_str_len m; wf_str_bytes m; wf_distinct m; wf_fn_fields m; wf_fn_names m;
+    wf_layout m; wf_code_bytes m; col 0%nat; col 1%nat; col 2%nat; col 3%nat; col 4%nat;
+    fold_right (fun c a => lenN (fn_labels c) + a) 0 codes <=? max_labels; wf_entry m ].
+
 End WithTable.
 
 (* ------------------------------------------------------------------------------------------------ table checks *)
